@@ -110,6 +110,10 @@ def NoLook : Expr → Bool
   | .backtrack _ => false
   | .fail => true
   | .py _ => true
+  | .tagged e _ => NoLook e
+  /- operator tables are outside the fragment of the nesting theorem (their spans are covered by
+     the correspondence run only) -/
+  | .optable _ _ _ _ _ => false
 def NoLookList : List Expr → Bool
   | [] => true
   | x :: xs => NoLook x && NoLookList xs
@@ -493,5 +497,21 @@ theorem peg_spans (P : Program) (inp : List Nat) (hm : MatcherBounded P) (hP : R
       simp only [peg] at h
       simp at h; obtain ⟨h1, h2⟩ := h; subst h1 h2
       exact ⟨Nat.le_refl _, scalar_spans _ _ _⟩
+    | tagged x tag =>
+      simp only [peg] at h
+      split at h
+      · simp at h
+      · simp at h
+      · rename_i v1 p1 hx
+        simp at h; obtain ⟨h1, h2⟩ := h; subst h1 h2
+        have := ih x p v1 p1 hx (by simpa [NoLook] using hnl)
+        refine ⟨this.1, ?_⟩
+        have hints : ∀ (t : List Int), spansInList p p1 (t.map Val.int ++ [v1]) = true := by
+          intro t
+          induction t with
+          | nil => simp [spansInList, this.2]
+          | cons i t ih2 => simp [spansInList, spansIn, ih2]
+        simpa [spansIn] using hints tag
+    | optable pre operand mixfix post inf => simp [NoLook] at hnl
 
 end Sourcer
